@@ -52,6 +52,12 @@ def run(tier, seed):
         for cb in (True, False):
             for _ in range(reps):
                 args = G.sample_args(rng, name, cb, tier)
+                if cb and "cheb_samples" in args:
+                    r = rng.random()
+                    if r < 0.2:
+                        args.pop("cheb_samples")                 # library default (20), also for degree >= 20
+                    elif r < 0.35:
+                        args["cheb_samples"] = int(args["degree"]) + 1
                 for eb, rsc in itertools.product([True, False], repeat=2):
                     out = G.call(PL, name, args, eb, rsc, cb, record=True)
                     ctx.count("gen:" + name)
